@@ -221,9 +221,9 @@ def run_meta(c, tier):
                 wk = interactive.Walker("plain", sub, log="w%d" % w)
                 hdr = ctl.header("off", extra="dt 1.0\ntemp 300.0\nreplicas %s %d %d 1 0\nkeeplog on" % (wd, w, nw))
                 # the output prefix must be relative: replica file names are built as <cwd>/<prefix>...
-                # state files every 3 update periods: in between, peers' hills arrive through the hills files
+                # state files every 6 update periods: in between, peers' hills arrive through the hills files
                 ev = wk.send(hdr + "emit atoms off\nmodule\nprefix out\nrfreq %d\nconfig <<EOC\n%sEOC\ninit\n" % (
-                    3 * freq, meta_config("r%d" % w, registry, freq)))
+                    6 * freq, meta_config("r%d" % w, registry, freq)))
                 cfg = [e for e in ev if e["ev"] == "config"]
                 if cfg and cfg[0]["rc"] != 0:
                     raise RuntimeError("config rejected: %s" % cfg[0]["errs"])
@@ -233,6 +233,8 @@ def run_meta(c, tier):
             own_steps = [[] for _ in range(nw)]
             received = [dict() for _ in range(nw)]     # per walker: (replica, step) -> count
             tstep = [0] * nw
+            fault_at = [0] * nw
+            loglines = [[] for _ in range(nw)]
             damaged = {}
             # hostile schedule: random walker steps; between steps peer files may be truncated/restored
             order = []
@@ -279,12 +281,54 @@ def run_meta(c, tier):
                     own_hills[w].append((x, 0.5))
                     own_steps[w].append(e["it"])
                 for line in e.get("log", []):
+                    if "eplica" in line or "ailed" in line or "rror" in line:
+                        loglines[w].append("%d:%s" % (e["it"], line.strip()[:110]))
                     m = re.search(r'received a hill from replica "(\S+?)" at step (\d+)', line)
                     if m:
                         k = (m.group(1), int(m.group(2)))
                         received[w][k] = received[w].get(k, 0) + 1
                 tstep[w] += 1
                 c.bump("meta_steps")
+                if damaged:
+                    fault_at[w] = tstep[w]
+                # bounded progress: if this walker has seen whole files for more than two update periods, it must hold
+                # every peer hill older than three update periods (flush by the owner + one read + one retry)
+                if tstep[w] - fault_at[w] > 2 * freq + 1 and tstep[w] > 4 * freq:
+                    old_peer = [(v, hcw, st_) for v in range(nw) if v != w for hcw, st_ in zip(own_hills[v], own_steps[v])
+                                if st_ <= tstep[v] - 1 - (3 * freq + 2)]
+                    if old_peer:
+                        v, hcw, st_ = rng.choice(old_peer)
+                        xp = hcw[0]
+                        evp = walkers[w].send(ctl.pos_line(d2=xp) + "\nevalc\nclearerr\n" + ctl.pos_line(d2=x) + "\n")
+                        ep = [q for q in evp if q["ev"] == "evalc"][0]
+                        oe = fl(ep["bias"]["mtd"]["e"])
+                        xc = LO + (math.floor((xp - LO) / 0.5) + 0.5) * 0.5
+                        lo_b = hi_b = 0.0
+                        sig = 0.5 * 2.0 * 0.5
+                        for u in range(nw):
+                            for h2, s2 in zip(own_hills[u], own_steps[u]):
+                                gc_ = h2[1] * math.exp(-0.5 * (xc - h2[0]) ** 2 / (sig * sig))
+                                gp_ = h2[1] * math.exp(-0.5 * (xp - h2[0]) ** 2 / (sig * sig))
+                                tc_ = gc_ if (xc - h2[0]) ** 2 / (sig * sig) <= 23.0 else 0.0
+                                tp_ = gp_ if (xp - h2[0]) ** 2 / (sig * sig) <= 23.0 else 0.0
+                                if u == w:
+                                    lo_b += tc_
+                                    hi_b += gc_
+                                else:
+                                    hi_b += max(gc_, gp_)
+                                    if s2 <= tstep[u] - 1 - (3 * freq + 2):
+                                        lo_b += min(tc_, tp_)
+                        c.bump("meta_progress_probes")
+                        if not (lo_b - 1e-10 <= oe <= hi_b + 1e-10):
+                            for w2 in range(nw):
+                                with open(os.path.join(wd, "w%d" % w2, "walker.scn"), "w") as f:
+                                    f.write(walkers[w2].script_text())
+                            c.violation("union_bias:" + key + (":too_small" if oe < lo_b else ":too_large") + ":during_run",
+                                        "walker %d at its step %d (last partial peer file seen at step %d) probe x=%s: bias %.15g, hill sum over "
+                                        "the union in [%.15g, %.15g]; own steps %s; announced %s" % (
+                                            w, tstep[w], fault_at[w], xp, oe, lo_b, hi_b, own_steps, [sorted((k, n) for k, n in r.items() if n > 1) for r in received]) + " LOG " + " | ".join(loglines[w][-40:]),
+                                        [os.path.join(wd, "w%d" % w2, "walker.scn") for w2 in range(nw)])
+                            raise StopIteration
             # quiet phase: files whole; every walker takes 3*freq more steps in lock-step, then probes
             for rep in range(3 * freq + 2):
                 for w in range(nw):
@@ -367,6 +411,8 @@ def run_meta(c, tier):
                 c.sample({"part": "multiple-walker metadynamics", "walkers": nw, "replicaUpdateFrequency": freq,
                           "hills_deposited": [len(h) for h in own_hills], "hills_received": [len(r) for r in received],
                           "first_interleaving": order[:12]}, cap=6)
+        except StopIteration:
+            pass
         except RuntimeError as ex:
             errs = ""
             for w in range(nw):
